@@ -1,5 +1,6 @@
 import MakoModel.Basic.Wire
 import MakoModel.ModFile.Model
+import MakoModel.ModFile.Conc
 /-! Driver handler for the module-file model:
 
 `modfile hist <pycOn> <tok>…` - run a history; tokens: `S<mtime>` modify source, `D` delete module,
@@ -8,6 +9,10 @@ import MakoModel.ModFile.Model
 `H…` same with a `module_writer` that installs what it is given, `N…` with one that does nothing.
 Answer: one record per construct, `;`-separated:
 `res|writes|acts|calls|module path|temp files`.
+
+`modfile conc <initmod> <srcVer> <srcMtime> <clock> <m> <item>…` - interleaved constructs: `initmod` is `none` or
+`<src>.<magic>.<mtime>.<file>`; items: a pid, `M<mtime>` (modify source), `K<t>` (clock).  Answer: the outcome of
+processes `0..m-1` (`served:<content>` / `failed` / `running`), `|`, the module path.
 
 `modfile vdir <exists> <failures>` - `verify_directory`: `<makedirs calls> <raised>`.
 -/
@@ -93,7 +98,29 @@ def stepTok (st : World × List String) (tok : String) : Option (World × List S
     pure (o.world, out ++ [encOut o])
   | _ => none
 
+def decItem (t : String) : Option SItem :=
+  match t.toList.head? with
+  | some 'M' => (t.drop 1).toString.toNat?.map SItem.modify
+  | some 'K' => (t.drop 1).toString.toNat?.map SItem.setClock
+  | _ => t.toNat?.map SItem.proc
+
+def encPhase : Phase → String
+  | .done (some c) => "served:" ++ encContent c
+  | .done none => "failed"
+  | _ => "running"
+
 def handle : Handler
+  | "conc" :: initmod :: v :: sm :: ck :: m :: items => do
+    let v ← v.toNat?; let sm ← sm.toNat?; let ck ← ck.toNat?; let m ← m.toNat?
+    let fs0 : FS ← if initmod == "none" then some FS.empty else
+      match initmod.splitOn "." with
+      | [a, b, c, d] => do
+        let a ← a.toNat?; let b ← b.toNat?; let c ← c.toNat?; let d ← d.toNat?
+        pure (FS.empty.set .mod (some ⟨⟨a, b, true, 1000000, 1, d⟩, c⟩))
+      | _ => none
+    let sched ← items.mapM decItem
+    let st := runC (CState.initial fs0 v sm ck (fun _ => []) (fun _ => [])) sched
+    pure (";".intercalate ((List.range m).map fun p => encPhase (st.procs p).phase) ++ "|" ++ encFile (st.fs .mod))
   | "hist" :: pycOn :: toks => do
     let on ← decBool pycOn
     let st ← toks.foldlM stepTok ({ World.init with pycOn := on }, [])
